@@ -16,7 +16,10 @@ MANIFEST = {
           'TaskBlockingQueue::send, RefAutoCounter/AutoCounter, release_all, BlockingHandle::new/drop, blocking_done and BiAtomicU32 (load + CAS with retry). '
           'Proved as an inductive invariant of the counter abstraction (34 abstract rules) and transferred by a simulation lemma. The model is tied to the code '
           'by running the real code under a controller that releases one parked thread per schedule entry (hook verif_sched::point before every access) and '
-          'comparing the step-by-step trace with the extracted model on the same schedule; the three conclusions are also monitored on the implementation trace.',
+          'comparing the step-by-step trace with the extracted model on the same schedule. Independent monitors on the implementation trace: no hand-off while sealed; '
+          'blocking_done()=true only when nothing is in flight; no thread panics / wedges; blocking count > 0 iff a handle is alive and term = term0 + successful '
+          'start/drop operations (conclusion of C11_counting_invariant) after every step; release_all is entered only when no handle is alive; re-dispatch at most '
+          'once and only of enqueued tasks; when all threads finished and all handles are dropped enqueued = re-dispatched; no lost wake-up.',
   'note': 'Coq kernel; closed under the global context. Assumed, not proved: sequential consistency (every atomic in blocking.rs/biatomic.rs is SeqCst - pinned '
           'textually on every run; the crossbeam channel send/try_recv are treated as single atomic actions); each hook label stands for exactly one access; '
           'the fake inner / re-dispatch senders and the in-flight completion (drop of the CounterTask) stand for the backend. u32 overflow of count/term is '
@@ -36,7 +39,7 @@ TRUSTED = ['Coq 8.16.1 kernel (coqc; coqchk in the thorough tier); no axioms (Pr
            'memory model: sequential consistency assumed; all explicit atomics in the two files are Ordering::SeqCst (pinned); crossbeam-channel '
            'send/try_recv assumed linearizable']
 
-REC = re.compile(r'^(\d+):([a-z_.]+)>([a-z_.]+):b(\d)t(\d+)d(\d)((?::[DHR]\d+)*)$')
+REC = re.compile(r'^(\d+):([a-z_.]+)>([a-z_.]+):b(\d)t(\d+)d(\d)((?::[ADHR]\d+)*)$')
 
 
 # ---------------------------------------------------------------- cases
@@ -72,6 +75,9 @@ CORPUS = [
     mk_case(0, ['I', 'B:3', 'S:b:o'], [1, 1, 1, 2, 2, 0, 1, 2, 2, 2]),
     # two blockers, CAS interference, only the last drop releases
     mk_case(0, ['S:n:o', 'B:1', 'B:1', 'S:n:r'], [1, 2, 1, 2, 2, 1, 0, 0, 0, 3, 3, 3, 1, 2, 1, 2, 2, 1, 1, 2, 2]),
+    # three blockers: all load, then all CAS (two lose and retry), same for the drops
+    mk_case(0, ['B:1', 'B:0', 'B:1', 'S:n:o'], [0, 1, 2, 0, 1, 2, 1, 2, 1, 2, 2, 2, 3, 3, 3, 3, 0, 2, 0, 1, 2, 0, 1, 2, 1, 2, 1, 2, 2, 2]),
+    mk_case(0, ['B:0', 'B:0'], [0, 1, 1, 0, 0, 0, 1, 0, 1, 1, 0, 1]),
     # hints against the term: m0 at term 2 replies retry, m2 forwards, m9 (future term) forwards
     mk_case(2, ['S:m0:o', 'S:m2:o', 'S:m9:c', 'B:0'], [0, 0, 1, 1, 2, 2, 0, 1, 2]),
     # inner sender errors
@@ -95,7 +101,9 @@ def explore_configs(tier):
     cfgs = []
     if tier == 'quick':
         cfgs += [(0, ['S:n:o', 'B:1']), (0, ['S:b:o', 'B:1']), (0, ['S:m0:o', 'B:2']), (0, ['S:n:c', 'B:1', 'I']),
-                 (0, ['S:n:o', 'S:n:r', 'B:1']), (2, ['S:m2:o', 'S:b:o', 'B:1'])]
+                 (0, ['S:n:o', 'S:n:r', 'B:1']), (2, ['S:m2:o', 'S:b:o', 'B:1']),
+                 # two and three blockers colliding inside the load -> CAS window of compare_and_apply (start and drop)
+                 (0, ['B:1', 'B:1']), (0, ['B:0', 'B:1', 'B:0']), (0, ['S:n:o', 'B:1', 'B:1']), (0, ['B:1', 'B:1', 'B:1'])]
         return cfgs
     for term0 in (0, 2):
         kinds = sender_kinds(term0)
@@ -112,6 +120,8 @@ def explore_configs(tier):
     for a in sender_kinds(0)[:4]:
         cfgs.append((0, [a, 'B:1', 'B:1']))
         cfgs.append((0, [a, 'B:1', 'P']))
+    cfgs += [(0, ['B:1', 'B:1']), (0, ['B:0', 'B:1', 'B:0']), (0, ['B:1', 'B:1', 'B:1']), (0, ['S:b:o', 'B:0', 'B:0', 'B:0']),
+             (0, ['S:n:o', 'B:1', 'B:0', 'B:1'])]
     return cfgs
 
 
@@ -141,6 +151,35 @@ def random_case(r, kmax):
     return mk_case(term0, specs, sched, complete=r.random() < 0.9)
 
 
+def collision_case(r):
+    """2-3 blockers (and 0-2 senders) whose compare_and_apply calls overlap: every blocker loads before any of them CASes,
+    for the start and again for the drop; the order inside each phase and the senders' steps are random"""
+    nb = r.choice([2, 2, 3])
+    specs = ['B:%d' % r.choice([0, 1, 1, 2]) for _ in range(nb)]
+    for _ in range(r.choice([0, 1, 1, 2])):
+        specs.append('S:%s:%s' % (r.choice(['n', 'n', 'b', 'm0']), r.choice('oorc')))
+    r.shuffle(specs)
+    bl = [i for i, x in enumerate(specs) if x.startswith('B:')]
+    others = [i for i, x in enumerate(specs) if not x.startswith('B:')]
+    sched = []
+    def phase(steps_each):
+        seq = []
+        for b in bl:
+            seq += [b] * steps_each
+        r.shuffle(seq)
+        for x in seq:
+            sched.append(x)
+            if others and r.random() < 0.3:
+                sched.append(r.choice(others))
+    loads = bl[:]; r.shuffle(loads); sched.extend(loads)          # all start loads
+    phase(r.choice([1, 2, 3]))                                     # CASes, retries
+    phase(r.choice([1, 2, 3, 4]))                                  # polls, drop loads
+    phase(r.choice([2, 3, 4]))                                     # drop CASes, retries, release
+    for _ in range(r.randint(0, 10)):
+        sched.append(r.randrange(len(specs) + n_spawn(specs)))
+    return mk_case(0, specs, sched)
+
+
 # ---------------------------------------------------------------- monitors
 def parse(out):
     """-> (records, summary dict) or None"""
@@ -164,11 +203,20 @@ def parse(out):
 
 def monitor(case, out):
     """The three conclusions of C11 on an implementation trace. None if fine, else a description."""
+    if out.startswith('panic'):
+        return 'the run of the real code panicked: %s' % out[:200]
+    if out.startswith('wedged'):
+        return ('a thread of the real code did not reach its next scheduling point within 10 s (deadlock or unbounded retry loop): %s'
+                % out.split(' ;; ')[0])
     p = parse(out)
     if p is None:
-        return None       # not a trace (wedged / panic): reported as a disagreement with the model
+        return None       # not a trace at all: reported as a disagreement with the model
     recs, sm = p
     specs = case.split(' / ')[0].split()[2:]
+    term0 = int(case.split()[1])
+    live = set()          # blockers whose start_blocking has returned and whose handle drop has not yet decremented the count
+    done_seen = set()     # ... and that have observed blocking_done() = true
+    ncas = 0              # successful compare_and_apply calls (each adds 1 to the term)
     sealed = False
     enq, redisp, hand = [], [], []
     qlen = 0
@@ -180,6 +228,30 @@ def monitor(case, out):
     npool = len(specs)
     for i, r in enumerate(recs):
         tid = r['tid']
+        # (1) no thread of the real code panics (the model panics only at u32::MAX, which no schedule here reaches)
+        if r['next'] == 'panic':
+            return 'step %d: thread %d panicked at %s' % (i, tid, r['label'])
+        # (2) counting invariant: blocking count = live handles, term = term0 + successful compare_and_apply calls
+        if 'A1' in r['notes']:
+            live.add(tid); ncas += 1
+        elif r['label'] == 'cas_cas' and tid in live and r['next'] in ('try_recv', 'fin.ok'):
+            live.discard(tid); done_seen.discard(tid); ncas += 1
+        if r['b'] != (1 if live else 0):
+            return ('step %d: %d blocking handle(s) alive %s but the real blocking count is %s'
+                    % (i, len(live), sorted(live), '> 0' if r['b'] else '0'))
+        if r['term'] != term0 + ncas:
+            return ('step %d: %d start/drop operations succeeded since term %d but the real term is %d (lost or duplicated update of the packed state)'
+                    % (i, ncas, term0, r['term']))
+        if 'D1' in r['notes'] and tid in live:
+            done_seen.add(tid)
+        # (3) release_all is entered (by a sender after its second state load, by a handle drop) only when no handle is alive.
+        #     NOT monitored, because it is false of the unchanged code and of the model: "nothing is taken from the queue while a handle
+        #     is alive" - a release loop entered when the count was 0 may still be running (or not yet started) when the next
+        #     start_blocking succeeds and drains tasks queued under the new handle; the re-dispatch sender re-enters `send`, which
+        #     queues them again. Witness: run 0 S:n:o B:1 B:1 / 1 1 1 1 1 2 2 0 0 0 0 0 1 1 1
+        if live and r['next'] == 'try_recv' and r['label'] in ('state_load', 'cas_cas'):
+            return ('step %d: thread %d starts draining the queue (release_all) while handle(s) %s are alive%s'
+                    % (i, tid, sorted(live), (' and %s observed blocking_done()=true' % sorted(done_seen)) if done_seen else ''))
         if r['label'] == 'ref_inc': holding.add(tid)
         if r['label'] == 'ref_dec': holding.discard(tid)
         if r['label'] == 'handoff' and r['next'] == 'ref_dec':
@@ -225,9 +297,12 @@ def monitor(case, out):
         return 'a task was handed off twice'
     if set(hand) & set(enq):
         return 'task(s) %s both handed off and enqueued' % sorted(set(hand) & set(enq))
-    if sm.get('fin') == '1' and b == 0 and recs:
+    if 'panic' in sm.get('th', '').split(','):
+        return 'a thread of the real code ended in a panic'
+    # (4) all threads finished and every handle dropped: nothing stays queued
+    if sm.get('fin') == '1' and not live and recs:
         if sorted(enq) != sorted(redisp):
-            return 'all threads finished and nobody blocks, but enqueued %s != re-dispatched %s' % (sorted(enq), sorted(redisp))
+            return 'all threads finished and every handle dropped, but enqueued %s != re-dispatched %s' % (sorted(enq), sorted(redisp))
         th = sm.get('th', '').split(',')
         for t, s in enumerate(specs):
             if s.startswith('S:') and t < len(th):
@@ -242,6 +317,8 @@ def monitor(case, out):
 def features(out):
     p = parse(out)
     f = set()
+    if p is not None and len(set(r['tid'] for r in p[0] if 'A1' in r['notes'])) >= 2:
+        f.add('two_or_more_handles')
     if p is None:
         return f
     recs, sm = p
@@ -371,14 +448,15 @@ def run(chk):
     done = 0
     while done < nrand:
         nb = min(40000, nrand - done)
-        process(chk, acc, [random_case(r, 4 if (quick or i % 2 == 0) else 6) for i in range(nb)])
+        process(chk, acc, [collision_case(r) if i % 4 == 3 else random_case(r, 4 if (quick or i % 2 == 0) else 6) for i in range(nb)])
         done += nb
     chk.cov['traces_validated_against_impl'] = acc.ncases - acc.ndis - acc.nfail
     chk.sub('distribution', cases=acc.ncases, corpus=len(CORPUS), edge_coverage_cases=n_explore, random_cases=nrand,
             features=acc.hist, pool_sizes=acc.pools, monitor_failures=acc.nfail, disagreements=acc.ndis)
-    if acc.ndis and not acc.nfail:
-        # search for a failing input around the disagreement: more random schedules, monitors only
-        extra = [random_case(r, 4) for _ in range(20000)]
+    if (acc.ndis or pp) and not acc.nfail:
+        # search for a failing input around the disagreement / the changed access: two- and three-blocker schedules colliding inside
+        # compare_and_apply plus more random schedules, monitors only
+        extra = [collision_case(r) for _ in range(6000)] + [random_case(r, 4) for _ in range(14000)]
         _, impl2 = chk.run_impl('barrier', extra, timeout=3000, jobs=8)
         for c, o in zip(extra, impl2):
             bad = monitor(c, o)
@@ -386,7 +464,7 @@ def run(chk):
                 chk.violation({'kind': 'monitor', 'case': c, 'impl': o, 'what': bad, 'found_by': 'search after a model/implementation disagreement'})
                 acc.nfail += 1
                 break
-        if not acc.nfail:
+        if not acc.nfail and acc.ndis:
             chk.violation({'kind': 'correspondence', 'correspondence': 'Model/Barrier.v step vs proxy/blocking.rs + common/biatomic.rs under the H3 scheduler',
                            'first': acc.disagreements[0], 'count': acc.ndis,
                            'search': 'monitors evaluated on all %d implementation traces and on 20000 further random schedules: no property failure'
